@@ -461,7 +461,10 @@ Definition spec_hms_seconds (s : string) : option BinNums.N :=
   | _ => None
   end.
 
-Fixpoint configured (fuel : nat) (j : json) : option TM.term :=
+(* [every_check] = read a query_runtime member whose `frequency` is not a positive integer (0, negative, missing, not an
+   integer) as "checked at every iteration" instead of giving up: used only to say what the time budget of a
+   configuration that should have been refused would have demanded *)
+Fixpoint configured_f (every_check : bool) (fuel : nat) (j : json) : option TM.term :=
   match fuel with
   | 0 => None
   | S fu =>
@@ -476,13 +479,18 @@ Fixpoint configured (fuel : nat) (j : json) : option TM.term :=
           if String.eqb ty "iterations" then option_map TM.Iter (nonneg "limit")
           else if String.eqb ty "solution_size" then option_map TM.Size (nonneg "limit")
           else if String.eqb ty "query_runtime" then
-            match jget j "limit", nonneg "frequency" with
-            | Some (JStr txt), Some f =>
+            match jget j "limit" with
+            | Some (JStr txt) =>
                 match spec_hms_seconds txt with
-                | Some secs => if N.eqb f 0 then None else Some (TM.Runtime (secs * 1000000000)%N f)
+                | Some secs =>
+                    match nonneg "frequency" with
+                    | Some f => if N.eqb f 0 then (if every_check then Some (TM.Runtime (secs * 1000000000)%N 1) else None)
+                                else Some (TM.Runtime (secs * 1000000000)%N f)
+                    | None => if every_check then Some (TM.Runtime (secs * 1000000000)%N 1) else None
+                    end
                 | None => None
                 end
-            | _, _ => None
+            | _ => None
             end
           else if String.eqb ty "combined" then
             match jget j "models" with
@@ -491,7 +499,7 @@ Fixpoint configured (fuel : nat) (j : json) : option TM.term :=
                   ((fix go (ms : list json) : option (list TM.term) :=
                       match ms with
                       | [] => Some []
-                      | x :: r => match configured fu x, go r with
+                      | x :: r => match configured_f every_check fu x, go r with
                                   | Some t, Some l => Some (t :: l)
                                   | _, _ => None
                                   end
@@ -500,6 +508,33 @@ Fixpoint configured (fuel : nat) (j : json) : option TM.term :=
             end
           else None
       | _ => None
+      end
+  end.
+Definition configured (fuel : nat) (j : json) : option TM.term := configured_f false fuel j.
+
+(* a configuration the builder MUST refuse, read from the text: some query_runtime member (top level, or at any depth
+   of `combined` members) whose `frequency` is not an integer >= 1.  The time budget is tested when
+   iteration % frequency == 0: there is no such schedule for 0 (or a negative / fractional / missing number), and a
+   builder that lets it through yields a search that panics or never looks at the clock *)
+Fixpoint bad_frequency (fuel : nat) (j : json) : bool :=
+  match fuel with
+  | 0 => false
+  | S fu =>
+      match jget j "type" with
+      | Some (JStr ty) =>
+          let ty := TM.to_lowercase ty in
+          if String.eqb ty "query_runtime" then
+            match jget j "frequency" with
+            | Some (JInt z) => Z.ltb z 1
+            | _ => true
+            end
+          else if String.eqb ty "combined" then
+            match jget j "models" with
+            | Some (JArr ms) => existsb (bad_frequency fu) ms
+            | _ => false
+            end
+          else false
+      | _ => false
       end
   end.
 
@@ -550,13 +585,35 @@ Section ConfigRun.
                                  | Some t, Some o => [((t, scr c), o)]
                                  | _, _ => []
                                  end) cs in
+    (* a query_runtime frequency below 1 (or not an integer) must be refused; if it was accepted, say also whether the
+       run at least kept to the time budget (read as "checked at every iteration") *)
+    let accepted_bad := flat_map (fun c => match built c with
+                                           | Ok _ => if bad_frequency 50 (fst (fst (fst c))) then [c] else []
+                                           | _ => []
+                                           end) cs in
+    let budget_broken := flat_map (fun c => match configured_f true 50 (fst (fst (fst c))), snd c with
+                                            | Some t, Some o =>
+                                                match check_entry vertex maxdeg unl (t, scr c) o with
+                                                | Some why => [why ++ " @ " ++ show_term t]
+                                                | None => []
+                                                end
+                                            | _, _ => []
+                                            end) accepted_bad in
     line "S" id
-      (if rejected then "REJECT(a well-formed configuration was rejected by the builder)"
+      (match accepted_bad with
+       | _ :: _ => "REJECT(a query_runtime frequency that is not an integer >= 1 was accepted by the builder"
+                   ++ match budget_broken with
+                      | why :: _ => "; the search under it does not keep to the configured time budget: " ++ why
+                      | [] => ""
+                      end ++ ")"
+       | [] =>
+       if rejected then "REJECT(a well-formed configuration was rejected by the builder)"
        else if crashed then "REJECT(a search under an accepted configuration ended neither with the unlimited result nor with a terminated error)"
        else match check_case vertex maxdeg unl es with
             | None => show_config_case unl (map (fun c => (scr c, built c, snd c)) cs)
             | Some why => "REJECT(" ++ why ++ " -- the term shown is the CONFIGURED one)"
-            end).
+            end
+       end).
 End ConfigRun.
 
 End TR.
